@@ -26,12 +26,17 @@ def run(ctx) -> None:
     ctx.guard("C14.no-partial", no_partial)
     ctx.guard("C14.instructions", instructions)
     ctx.guard("C14.execute-pairing", to_worklist)
+    ctx.guard("C14.totals", totals)
     # to_worklist executes through transfer(): on both devices the dispensed liquid carries the source well's composition
     from . import c01
     from .common import concrete_devices
 
     for dev in concrete_devices(ctx):
         ctx.reuse("C14.transfer-composition", c01.pair_transfer, dev)
+    # ... and aspirating never changes what a well consists of (the source composition is read after the aspirate)
+    from . import c05
+
+    ctx.reuse("C14.transfer-composition", c05.owner)
 
 
 def _init(ctx, rule):
@@ -135,9 +140,48 @@ def instructions(ctx) -> None:
         c = f"{f.qualname}/{kind}"
         w = f.where(cs.call)
         v = fv.res.resolve(tup.elts[3], cs.node)
+        def is_whole(t, depth=0):
+            """the value is a whole number: ceil/floor/rint/trunc/round(x, 0) of anything, or min/max of whole numbers"""
+            fn_ = call_fname(t)
+            if fn_ in ("ceil", "floor", "rint", "trunc", "fix"):
+                return True
+            if fn_ in ("round", "around", "round_"):
+                return (len(t.args) < 2 or (isinstance(t.args[1], ast.Constant) and t.args[1].value == 0)) and not [k for k in t.keywords if k.arg == "decimals" and not (isinstance(k.value, ast.Constant) and k.value.value == 0)]
+            if fn_ in ("minimum", "maximum", "fmin", "fmax", "min", "max") and len(t.args) >= 2 and depth < 3:
+                return all(is_whole(a_, depth + 1) or (isinstance(a_, ast.Constant) and float(a_.value).is_integer()) for a_ in t.args)
+            return False
+
         rounding = call_fname(v)
-        whole = rounding in ("ceil", "floor", "rint", "trunc") or (rounding in ("round", "around", "round_") and (len(v.args) < 2 or (isinstance(v.args[1], ast.Constant) and v.args[1].value == 0)) and not [k for k in v.keywords if k.arg == "decimals" and not (isinstance(k.value, ast.Constant) and k.value.value == 0)])
+        whole = is_whole(v)
         ctx.rep.check(whole, "C14.whole-uL", c + "/rounding", f"transfer volumes are {rounding}(...) = whole microlitres", f"{kind} transfer volumes `{show(v)[:70]}` are not rounded to whole microlitres", where=w)
+        # v <= vmax of the target column: capped by min(.., floor(vmax[c])) or guarded by all(v <= vmax[c])
+        col = fv.res.resolve(tup.elts[0], cs.node)
+
+        vmax_param = ast.Name(id="vmax", ctx=ast.Load())
+
+        def is_vmax_of_col(e):
+            # <normalised vmax>[<column of this instruction>]
+            return isinstance(e, ast.Subscript) and is_name(strip_norm(e.value), "vmax") and key(e.slice) == key(col)
+
+        def capped(t, depth=0):
+            if isinstance(t, ast.Call) and call_fname(t) in ("minimum", "fmin", "clip", "min") and len(t.args) >= 2 and depth < 3:
+                for a_ in t.args:
+                    core = a_.args[0] if isinstance(a_, ast.Call) and call_fname(a_) in ("floor", "trunc", "int", "fix") and a_.args else a_
+                    if is_vmax_of_col(core):
+                        return True
+                return any(capped(a_, depth + 1) for a_ in t.args)
+            return False
+
+        ok_cap = capped(v)
+        if not ok_cap:
+            for r, pol, br in fv.atoms_at(cs.node):
+                if isinstance(r, ast.Call) and call_fname(r) == "all" and pol and r.args and isinstance(r.args[0], ast.Compare) and len(r.args[0].ops) == 1:
+                    inner = r.args[0]
+                    if key(inner.left) == key(v) and isinstance(inner.ops[0], ast.LtE) and is_vmax_of_col(inner.comparators[0]):
+                        ok_cap = True
+        ctx.rep.check(ok_cap, "C14.vmax-bound", c + "/vmax", "the planned volumes are capped at (or checked against) the vmax of the column they go into",
+                      f"the {kind} transfer volumes `{show(v)[:60]}` are rounded to whole microlitres but never compared with the vmax of column `{show(col)[:20]}`: for a non-integer vmax the "
+                      "rounded volume can exceed it (951 uL into a 950.6 uL column)", where=w)
         # dominated by all(v >= min_transfer) on the very vector that is appended
         ok_min = False
         for r, pol, br in fv.atoms_at(cs.node):
@@ -221,6 +265,87 @@ def instructions(ctx) -> None:
 
                 per_block = all(any(same_block(x, a_) for x in news) for a_ in apps)
                 ctx.rep.check(per_block, "C14.budget", f"{f.qualname}/remaining-init", "every planned column gets its own remaining-volume entry", "a planned column gets no remaining-volume entry: the budget list is misaligned with the instructions", where=w)
+
+
+def totals(ctx) -> None:
+    """The reported consumption: v_stock = sum of the stock draws, v_diluent = everything that ends up in the plate minus
+    the stock (liquid moved between columns is neither), i.e. sum(R * vmax) - v_stock."""
+    rule = "C14.totals"
+    f, fv = _init(ctx, rule)
+    selfn = f.params[0]
+    instr_name, _t = _list_names(fv, f)
+    stores = {}
+    for n in fv.cfg.nodes:
+        if n.kind == "stmt" and isinstance(n.ast, (ast.Assign, ast.AnnAssign)) and n.ast.value is not None:
+            t = n.ast.targets[0] if isinstance(n.ast, ast.Assign) else n.ast.target
+            for attr in ("v_stock", "v_diluent"):
+                if attr_of_name(t, selfn, attr):
+                    stores[attr] = n
+    for attr in ("v_stock", "v_diluent"):
+        if attr not in stores:
+            ctx.rep.inconclusive(rule, f"{f.qualname}/{attr}", f"store of self.{attr} not found", where=f.where())
+            return
+    # v_stock: sum over the instructions with dilution step 0
+    n = stores["v_stock"]
+    raw, at = fv.def_expr(n.ast.value, n.id)
+    ok = False
+    if isinstance(raw, ast.Call) and call_fname(raw) == "sum" and raw.args and isinstance(raw.args[0], (ast.ListComp, ast.GeneratorExp)) and len(raw.args[0].generators) == 1:
+        comp = raw.args[0]
+        g = comp.generators[0]
+        if isinstance(g.target, ast.Tuple) and len(g.target.elts) == 4 and all(isinstance(e, ast.Name) for e in g.target.elts) and (is_name(g.iter, instr_name) or attr_of_name(g.iter, selfn, "instructions")):
+            dstep, vol = g.target.elts[1].id, g.target.elts[3].id
+            flt = len(g.ifs) == 1 and isinstance(g.ifs[0], ast.Compare) and len(g.ifs[0].ops) == 1 and isinstance(g.ifs[0].ops[0], ast.Eq) and is_name(g.ifs[0].left, dstep) \
+                and isinstance(g.ifs[0].comparators[0], ast.Constant) and g.ifs[0].comparators[0].value == 0
+            ok = flt and is_name(comp.elt, vol)
+    ctx.rep.check(ok if ok else None, rule, f"{f.qualname}/v_stock", "v_stock = sum of the volumes of the instructions that draw from the stock (dilution step 0)",
+                  f"cannot recognise `{show(raw)[:70]}` as the sum of the stock draws", where=f.where(n.ast))
+    # v_diluent
+    n = stores["v_diluent"]
+    raw, at = fv.def_expr(n.ast.value, n.id)
+    c = f"{f.qualname}/v_diluent"
+    w = f.where(n.ast)
+
+    def is_total(e):
+        # numpy.sum(R * vmax_arr)
+        if isinstance(e, ast.Call) and call_fname(e) == "sum" and len(e.args) == 1 and isinstance(e.args[0], ast.BinOp) and isinstance(e.args[0].op, ast.Mult):
+            a, b = e.args[0].left, e.args[0].right
+            names = {getattr(fv.res.resolve(x, at), "id", None) if not isinstance(x, ast.Name) else x.id for x in (a, b)}
+            vmax_like = any(isinstance(x, ast.Name) and "vmax" in x.id for x in (a, b))
+            return "R" in names and vmax_like
+        return False
+
+    if isinstance(raw, ast.BinOp) and isinstance(raw.op, ast.Sub) and is_total(raw.left) and (attr_of_name(raw.right, selfn, "v_stock") or key(fv.def_expr(raw.right, at)[0]) == key(fv.def_expr(stores["v_stock"].ast.value, stores["v_stock"].id)[0])):
+        ctx.rep.holds(rule, c, "v_diluent = sum(R * vmax) - v_stock", where=w)
+        return
+    # a running total: every planned column contributes sum(vmax[<that column>] - <its draw>)
+    if isinstance(n.ast.value, ast.Name):
+        acc = n.ast.value.id
+        incs = [x for x in fv.cfg.nodes if x.kind == "stmt" and isinstance(x.ast, ast.AugAssign) and is_name(x.ast.target, acc)]
+        apps = [cs for cs in fv.calls() if isinstance(cs.call.func, ast.Attribute) and cs.call.func.attr == "append" and is_name(cs.call.func.value, instr_name)]
+        if incs and len(incs) == len(apps):
+            bad = None
+            for inc in incs:
+                here = {(key(r), p) for r, p, br in fv.atoms_at(inc.id)}
+                mate = [cs for cs in apps if {(key(r), p) for r, p, br in fv.atoms_at(cs.node)} == here and fv.cfg.enclosing_loops(cs.node) == fv.cfg.enclosing_loops(inc.id)]
+                v = inc.ast.value
+                inner = v.args[0] if isinstance(v, ast.Call) and call_fname(v) == "sum" and v.args else v
+                if len(mate) != 1 or not isinstance(inc.ast.op, ast.Add) or not (isinstance(inner, ast.BinOp) and isinstance(inner.op, ast.Sub) and isinstance(inner.left, ast.Subscript)):
+                    bad = (inc, "unrecognised contribution")
+                    continue
+                tup = mate[0].call.args[0]
+                col = fv.res.resolve(tup.elts[0], mate[0].node)
+                draw = fv.res.resolve(tup.elts[3], mate[0].node)
+                if key(fv.res.resolve(inner.left.slice, inc.id)) != key(col):
+                    bad = (inc, f"the column filled up is `{show(col)[:30]}` but the capacity of column `{show(fv.res.resolve(inner.left.slice, inc.id))[:30]}` is counted")
+                elif key(fv.res.resolve(inner.right, inc.id)) != key(draw):
+                    bad = (inc, "the volume subtracted is not the draw of this instruction")
+            if bad and bad[1] != "unrecognised contribution":
+                ctx.rep.refuted(rule, c, f"`{stmt_key(bad[0].ast)[:70]}`: {bad[1]} - the reported diluent consumption differs from what executing the plan needs", where=f.where(bad[0].ast))
+                return
+            if not bad:
+                ctx.rep.holds(rule, c, "v_diluent accumulates sum(vmax[column] - draw) for every planned column", where=w)
+                return
+    ctx.rep.inconclusive(rule, c, f"cannot relate `{show(raw)[:70]}` to sum(R * vmax) - v_stock", where=w)
 
 
 def to_worklist(ctx) -> None:
